@@ -828,6 +828,12 @@ func c14Options(c *cx) {
 				c.r.Check(id, f, "key unchanged between duplicate test and store", "K: the key tested for duplicates is the key stored", mu.Node.Pos(), mod == "", mod)
 			}
 			c.domAny(id, f, mu.Node, "registration refuses nil handlers", []string{"!eq(outer.p2,nil)", "!eq(outer.p1,nil)"})
+			// ... and nil funcs converted to the handler interface by the caller
+			// (IQHandlerFunc(nil) is not a nil interface, but calling it panics in
+			// the serve loop and the pattern stays occupied)
+			c.domAny(id, f, mu.Node, "registration refuses nil func handlers", []string{
+				"or(*!commaok(outer.p*.(*))*!eq(outer.p*.(*),nil)*)", "or(*!eq(outer.p*.(*),nil)*!commaok(outer.p*.(*))*)",
+				"and(*commaok(outer.p*.(*))*!eq(outer.p*.(*),nil)*)", "!istype(outer.p*;*Func)"})
 			c.dom(id, f, mu.Node, "registration refuses duplicates", []string{"!commaok(p0." + cls[strings.LastIndex(cls, ".")+1:] + "[" + key + "])"})
 			if t.kind != "" {
 				okKey := eng.Glob("mux.pattern{Stanza:"+t.kind+",Payload:outer.p1,Type:*outer.p0*}", keyLit)
